@@ -45,6 +45,7 @@ UNITS = {
     "reversal": dict(tpl="reversal.rs.tpl", doc="methods::{UpperReversalSignal, LowerReversalSignal, ReversalSignal}"),
     "window_serde": dict(tpl="window_serde.rs.tpl", doc="Window's hand-written Deserialize checks + snapshot round trip"),
     "ma_laws": dict(tpl="ma_laws.rs.tpl", doc="C15 laws over the SMA/WMA definitions and the EMA recurrence; MovingAverage trait facts for SMA/WMA/EMA"),
+    "ma_text": dict(tpl="ma_text.rs.tpl", variants=False, doc="helpers::MA's FromStr (`<name>-<period>`), C18"),
     "ma_laws2": dict(tpl="ma_laws2.rs.tpl", variants=False, doc="C15 affine equivariance for the remaining kinds (SWMA, LinReg, VWMA, Conv definitions; RMA, WSMA, DMA, TMA, DEMA, TEMA, TRIMA, HMA as relational one-step lemmas); VWMA/Conv range for non-negative weights"),
     "converters": dict(tpl="converters.rs.tpl", doc="methods::{CollapseTimeframe<Candle>, Renko, RenkoOutput}"),
     "ind_rsi": dict(tpl="ind_rsi.rs.tpl", doc="indicators::RelativeStrengthIndex (generic in the moving-average constructor)"),
@@ -401,18 +402,22 @@ PROPS["C17"] = dict(
                  "prices are positive (input_ok), as in the property's valid-candle streams"],
 )
 PROPS["C18"] = dict(
-    verus=["ohlcv", "text_forms"], kani=["ohlcv"],
+    verus=["ohlcv", "text_forms", "ma_text"], kani=["ohlcv"],
     forbid_in_src=[(r'"[^"]*[A-Z\s][^"]*"\s*(\||=>)|=>\s*"[^"]*[A-Z\s][^"]*"\s*,', "the source names matched and produced in core/candles.rs are lowercase without blanks (axiom norm_fixed)", r"src/core/candles\.rs$")],
     claim=("tp, hl2, ohlc4, volumed_price, source(kind), clv (incl. the zero-range branch and |clv| <= 1 for an ordered candle), tr_close == max(h-l, |h-pc|, |l-pc|) "
            "for h >= l, tr, and Candle + Candle (with associativity as a lemma) are verified over exact reals against their formulas for an arbitrary "
            "OHLCV implementation; validate, the source dispatch and the clv zero-range branch are additionally proved bit-precisely for every f64 candle "
            "(NaN/inf included) by loop-free Kani harnesses. The bit-level tr_close identity on integer-valued prices (bounded) runs in the thorough tier; over all finite f64 it did not finish and is not claimed. Text forms of Source: from_str (its `match` over the "
            "normalised text turned into a str_eq chain by rule R9) is verified to accept exactly the eight names and the alias hlc3 and to reject everything else with Err; the conversion to "
-           "&str yields the canonical name; source_text_roundtrip proves that the text of every source parses back to the same source."),
+           "&str yields the canonical name; source_text_roundtrip proves that the text of every source parses back to the same source. "
+           "Text form of the moving-average constructors (unit ma_text): MA::from_str is verified to accept exactly `<name>-<period>` - a text that splits at its first dash into one of the "
+           "fifteen exact lowercase names and a period text that parses as PeriodType - to return the kind that name selects with that length, and to reject everything else with Err; "
+           "ma_text_roundtrip proves, for every kind and length, that such a text is accepted as exactly that value (the fifteen names are pairwise different)."),
     assumptions=[REALS + " for the arithmetic identities (float + on volumes is not associative; the lemma is the ideal-arithmetic reading)",
                  "`s.to_ascii_lowercase().trim()` is an uninterpreted normalisation (norm_text) with the single axiom that it leaves the nine lowercase, blank-free names alone (norm_fixed); "
                  "that the names in the source have this form is backed by a source scan of core/candles.rs on every run",
-                 "MA has only FromStr (no textual output to round-trip); MA::from_str (split_once / parse) and the String / TryFrom wrappers of Source are not covered"],
+                 "MA has only FromStr (no textual output of its own to round-trip): str::split_once('-') and str::parse::<PeriodType> are abstract (uninterpreted functions of the text, ASSUMED std behaviour); "
+                 "the two error conversions (`.ok_or(..)?`, `.or(Err(..))?`) are rewritten to explicit matches (listed under the unit's replaced text); the String / TryFrom wrappers of Source are not covered"],
 )
 
 PROPS["C15"] = dict(
@@ -425,12 +430,16 @@ PROPS["C15"] = dict(
            "Range preservation as a one-step fact (every value the instance holds and every output stay within the bounds of the inputs) is proved in unit ma_instance for SMA, WMA, RMA, EMA, DMA, TMA, WSMA, SMM, SWMA, "
            "TRIMA and Vidya and lifted to the dispatch enum MAInstance; HMA, DEMA, TEMA and LinReg are not range-preserving (they extrapolate) and are marked so. "
            "That the `MA` wrapper behaves like the kind it names (init builds that kind with that length, next steps it, distinct kinds have distinct type tags) is unit ma_dispatch. "
-           "Unit ma_laws2 extends affine equivariance (any a, b; negative a included) to the other kinds: as identities over the definitions the step contracts return for SWMA, LinReg, "
-           "VWMA (in the prices, for fixed volumes, wherever the volume sum is non-zero) and Conv (any weights with non-zero sum), and in metamorphic form for RMA, WSMA, DMA, TMA, DEMA, TEMA, TRIMA and HMA: "
-           "two instances whose stored values are related by x -> a*x+b, stepped on x and a*x+b, stay related and their outputs are related (one inductive step over the step contracts). "
+           "Unit ma_laws2 extends affine equivariance (any a, b; negative a included) to ALL the other kinds: as identities over the definitions the step contracts return for SWMA, LinReg, "
+           "VWMA (in the prices, for fixed volumes, wherever the volume sum is non-zero) and Conv (any weights with non-zero sum), and in metamorphic form for RMA, WSMA, DMA, TMA, DEMA, TEMA, TRIMA, HMA, "
+           "SMM (median_affine: the median of the image is the image of the median; for a < 0 the sorted arrangement is reversed and the middle stays the middle) and Vidya (the |CMO| factor is "
+           "scale- and shift-free: sums of positive/negative changes are kept for a > 0 and swapped for a < 0): two instances whose stored values are related by x -> a*x+b, stepped on x and a*x+b, "
+           "stay related and their outputs are related (one inductive step over the step contracts). Superposition in the same form (three instances, the third holding the sums) for the linear kinds "
+           "SWMA, LinReg, Conv, RMA, DMA, TMA, DEMA, TEMA, TRIMA, HMA. Impulse responses for every length: SMA 1/n, WMA (i+1)/(n(n+1)/2), SWMA the triangle 1..l, r..1 over the normaliser, "
+           "Conv the caller's weight over the weight sum, EMA alpha then a factor (1-alpha) per step. "
            "VWMA with non-negative volumes and Conv with non-negative weights stay within the range of the values in the window (vwma_range, conv_range)."),
-    assumptions=[REALS, "superposition is proved for SMA, WMA and the EMA recurrence only; affine equivariance of SMM (median) and Vidya (scale-free adaptive factor) is NOT proved: for these two only range preservation (ma_instance) is machine-checked",
-                 "the impulse-response profile is the weight profile of the definitions (SMA 1/n, WMA (i+1)/tri(n), SWMA triangular, Conv the caller's weights); it is not re-derived by feeding an impulse"],
+    assumptions=[REALS, "the laws are lemmas over the step contracts / definitions (which the real `next` functions are verified against in C02/C03), composed one step at a time; the induction over a whole stream is the reader's",
+                 "superposition of WSMA is EMA's (it wraps one); SMM and Vidya are not linear and have no superposition law"],
 )
 PROPS["C13"] = dict(
     verus=["window_serde", "window", "smm_serde"], kani=["window"],
